@@ -378,6 +378,18 @@ inductive Out where
   | report (sClients : List (Key × Nat)) (sDomains : List (Bytes × Nat))
   deriving Repr
 
+/-- The id `topClientPairs` hands to `shouldCountClient` for a stored client key. -/
+def Key.qid : Key → QID
+  | .id c => .cid c
+  | .ip a => .ip a
+
+/-- GET /control/stats (`getData` / `topsCollector` / `topClientPairs`): the top
+domains are filtered with the CURRENT statistics ignore list, the top clients
+with the CURRENT client flag (looked up by the stored key). -/
+def statsReport (s : State) : Out :=
+  .report (s.sClients.filter (fun kv => shouldCountClient s.conf.clients s.conf.leases [kv.1.qid]))
+    (s.sDomains.filter (fun kv => !Ignore.has s.conf.ignS kv.1))
+
 def step (s : State) : Op → State × Out
   | .query q =>
     let s' := processQuery s q
@@ -398,7 +410,7 @@ def step (s : State) : Op → State × Out
     | some cs => ({ s with conf := { s.conf with clients := cs } }, .ok)
     | none => (s, .noClient)
   | .search => (s, .found (search s))
-  | .stats => (s, .report s.sClients s.sDomains)
+  | .stats => (s, statsReport s)
 
 def run (s : State) : List Op → State
   | [] => s
